@@ -602,6 +602,10 @@ func (runInfo *runInfoStruct) invokeNilCoalescingOpExpr(expr *ast.NilCoalescingO
 			return
 		}
 	} else {
+		if runInfo.err == ErrInterrupt {
+			// a cancelled run is not a failed left side
+			return
+		}
 		runInfo.err = nil
 	}
 	runInfo.expr = expr.RHS
